@@ -5,6 +5,21 @@ import os
 VERIF = os.path.dirname(os.path.dirname(os.path.abspath(__file__)))
 
 CLAIMED = {
+    "C06": ("6/C06", "Theorems (Lean 4, all values at any nesting depth): the code model of __eq__ (veq) is reflexive, symmetric and transitive, never "
+            "relates values of different kinds, is exact rational equality between ints and decimals, and membership / map lookup / set "
+            "construction (dedupKeepFirst, assocPut) cannot distinguish equal representatives; equal numbers have the same hash payload "
+            "(normNum). Tied to ckl.values by an all-pairs correspondence run over generated values and by an independent reference "
+            "equality (Fraction arithmetic, order-free containers) evaluated on the implementation, including hash congruence, all "
+            "insertion orders of up to 5 elements and interpreted programs.",
+            "Sets and maps are modelled in their enumeration order (canonical form built by mkSet/mkMap); values mixing dates with numbers "
+            "inside one collection and -0.0 are outside the generators (DESIGN.md section 8); NaN is the recorded finding C06:nan-reflexivity."),
+    "C07": ("6/C07", "Theorems (Lean 4, all values): on values of one kind the code model of __lt__ is irreflexive, asymmetric, transitive and trichotomous "
+            "with ==; numeric order is the order of the rationals, strings are code-point lexicographic (proper prefix first), FALSE<TRUE, dates "
+            "chronological, lists element-wise; compare/<=/>/>= are consistent; FuncSorted's insertion sort (sortedM) returns a sorted permutation "
+            "and is stable for every strict weak order; any sorted permutation under a strict total order equals the model's (so CPython's "
+            "sorted agrees); min/max return the first extremal element; set enumeration is independent of insertion order. Tied to the code "
+            "by all-pairs correspondence per kind, exhaustive sorted() runs on lists with duplicate keys, and a reference order oracle.",
+            "Cross-kind comparison (through rendered text) is mirrored but outside the theorems, as the property says 'values of one kind'."),
     "C15": ("6/C15", "Theorems (Lean 4, all lists and all integer indices): deref/slice/substr/find/find_last/insert_at/delete_at of the code model equal the "
             "textbook sequence operations (clamped contiguous run, least/greatest occurrence, one-position insert/delete) and the identities "
             "s[0 to k] + s[k to *] = s; tied to the code by an exhaustive small-domain correspondence run (all sequences of length <= 4/6 over "
